@@ -1653,8 +1653,14 @@ impl<'a, const C: usize, const R: usize, T: 'a + Copy + std::fmt::Debug> Layout<
                 // not. As another example, tap-dance and tap-hold will repeat the inner action and
                 // not the outer (tap-dance|hold) but multi will repeat the entire outer multi
                 // action.
-                if let Some(ac) = self.rpt_action {
+                // The repeated action may itself contain Repeat, e.g. `(multi rpt-any)` saves the
+                // whole multi as the action to repeat. Do not re-enter the repeat while it runs,
+                // otherwise this recurses until the stack overflows.
+                if let Some(ac) = self.rpt_action.take() {
                     self.do_action(ac, coord, delay, is_oneshot, &mut std::iter::empty());
+                    if self.rpt_action.is_none() {
+                        self.rpt_action = Some(ac);
+                    }
                 }
             }
             HoldTap(HoldTapAction {
